@@ -252,6 +252,13 @@ inductive AddOp where | add | sub deriving DecidableEq, Repr
 def valuesWrite (s : Obj) (ashape : Shape) (akind : Kind) (aligned : Bool := true) : Prim :=
   if s.pyScalar then .rebind (Kind.max s.kind akind) else .ipValues ashape akind aligned
 
+/-- `_require_units_allowed(op, arg)`: an operand with units for a class that disallows units (UNITS_OK false) is
+    refused with TypeError, as the constructor would refuse it -/
+def unitsAllowed (s a : Obj) : Bool := !(a.units.isSome && !s.cls.unitsOk)
+
+/-- the item shape (numerator ++ denominator) -/
+def Obj.item (s : Obj) : Shape := s.numer ++ s.denom
+
 /-- NumPy's own pre-write test of `self._values_ op= x`, as part of validation (kernel contract: NumPy raises
     before it writes): casting first (UFuncTypeError, a TypeError), then broadcasting (ValueError) -/
 def kernelCheck (s : Obj) (ashape : Shape) (akind : Kind) (aligned : Bool := true) : Except Exc Unit :=
@@ -305,6 +312,7 @@ def vAddQ (s a : Obj) : V := do
   guard' (s.numer == a.numer) (if s.cls != a.cls then .typeError else .valueError)
   guard' (s.denom == a.denom) .valueError
   guard' (into a.shape s.shape) .valueError                   -- _require_broadcast_into
+  guard' (unitsAllowed s a) .typeError                        -- _require_units_allowed
   guard' (!(s.isInt && !a.isInt)) .typeError
   let nd ← addDerivs s a
   kernelCheck s a.shape a.kind
@@ -358,6 +366,7 @@ def mulDerivs (s a : Obj) : Except Exc (List (String × Shape × Shape)) := do
 def vMulQ (s a : Obj) : V := do
   if a.rank == 0 then
     guard' (into a.shape s.shape) .valueError                 -- _require_broadcast_into
+    guard' (unitsAllowed s a) .typeError                      -- _require_units_allowed
     guard' (!(s.isInt && !a.isInt)) .typeError
     let nd ← mulDerivs s a
     kernelCheck s a.shape a.kind
@@ -446,6 +455,7 @@ def vFloorMod (floor : Bool) (s : Obj) (arg : Arg) : V := do
     let a ← toScalarArg other
     if a.rank == 0 then do
       guard' (into a.shape s.shape) .valueError               -- _require_broadcast_into
+      guard' (unitsAllowed s a) .typeError                    -- _require_units_allowed
       kernelCheck s a.shape a.kind
       pure ([valuesWrite s a.shape a.kind, .setMask, .setUnits s.units] ++ floorTail floor)
     else raise .typeError
@@ -456,14 +466,16 @@ def vLogic (s : Obj) (arg : Arg) : V := do
   match arg with
   | .q o => do
     guard' (into o.shape s.shape) .valueError                 -- _require_broadcast_into
+    guard' (o.item == s.item) .typeError                      -- "items are combined one by one"
     guard' (s.kind != .float) .typeError                      -- no bitwise ufunc for floats
-    kernelCheck s o.shape .bool false                         -- the item axes are NOT aligned by these operators
-    pure [valuesWrite s o.shape .bool false, .setMask]
-  | .nd _ sh => do
+    kernelCheck s o.shape .bool                               -- equal items: only the leading shapes matter
+    pure [valuesWrite s o.shape .bool, .setMask]
+  | .nd _ sh => do                      -- converted to a Boolean (item shape ()) first
     guard' (into sh s.shape) .valueError
+    guard' (([] : Shape) == s.item) .typeError
     guard' (s.kind != .float) .typeError
-    kernelCheck s sh .bool false
-    pure [valuesWrite s sh .bool false, .setMask]
+    kernelCheck s sh .bool
+    pure [valuesWrite s sh .bool, .setMask]
   | _ => do                             -- anything else is compared with 0 and used as one Boolean
     guard' (s.kind != .float) .typeError
     kernelCheck s [] .bool false
